@@ -58,8 +58,10 @@ PAN_INNER = """<rulebase><security><rules>
  </protocol>
 </entry>
 </service>"""
+# two vsys with the same content: the change commands of the vsys are sent one vsys after the other and
+# committed once at the end
 PAN_TGT = ('<config><devices><entry name="localhost.localdomain"><vsys><entry name="vsys1">\n' + PAN_INNER +
-           '\n</entry></vsys></entry></devices></config>\n')
+           '\n</entry><entry name="vsys2">\n' + PAN_INNER + '\n</entry></vsys></entry></devices></config>\n')
 NSX_CFG = {
     "groups": [{"id": "Netspoc-g0", "expression": [{"id": "id", "resource_type": "IPAddressExpression",
                                                      "ip_addresses": ["10.1.1.10", "10.1.1.20"]}]}],
